@@ -13,7 +13,7 @@ from . import rt
 ID = 'C06'
 BOUNDS = {'quick': 4, 'thorough': 6}
 OPS = tuple(o for o in sh.LOGICAL if o != 'XOR')
-WORDS = ('A', 'Ab1', 'ABC', 'AbCd', 'Z9', 'Integerx', 'ANDx', 'Tob')
+WORDS = ('A', 'Ab1', 'ABC', 'AbCd', 'Z9', 'Integerx', 'ANDx', 'Tob', 'A' + 'b' * 99, 'Q' + '9' * 79 + 'z', 'X' * 81)
 ATTR_NAMES = ('att', 'cost2', 'a', 'tox')
 
 
